@@ -319,9 +319,10 @@ class Server:
                 if t <= 0 or not self._pipeline_notfull.wait(t):
                     raise ServerBacklogFull(len(pipeline), perf_counter() - t0)
 
-            self._input_buffer.put((uid, x))
             pipeline[uid] = fut
-            # See doc of counterpart methods in `AsyncServer`.
+            self._input_buffer.put((uid, x))
+            # Record the request before handing it to the workers: the gather
+            # thread may receive its result at any moment after the `put`.
 
         fut.data['t1'] = perf_counter()
         return fut
@@ -589,8 +590,11 @@ class AsyncServer:
             #     change `pipeline.pop(uid)` in `_gather_output` to `pipeline.pop(uid, None)`;
             # (2) in `call`, protect the calll to `_enqueue` by an `asyncio.shield`.
 
-            self._input_buffer.put((uid, x))
+            # The request is recorded before it is handed to the workers, because the
+            # gather thread may receive its result at any moment after the `put`.
+            # There is no `await` between the two statements.
             pipeline[uid] = fut
+            self._input_buffer.put((uid, x))
 
         fut.data['t1'] = perf_counter()  # enqueing finished if `t1` != `t0`
         return fut
